@@ -35,6 +35,8 @@ func (c05) Gen(rt *rapid.T, thorough bool) any {
 	s.Kind = rapid.SampledFrom([]string{"AsyncLogger", "AsyncLogger", "Logger", "File", "Console", "RollingFile", "RollingFile", "AsyncShared"}).Draw(rt, "kind5")
 	s.Level = rapid.SampledFrom([]string{"", "", "DEBUG"}).Draw(rt, "level5")
 	s.StopTwice = rapid.IntRange(0, 3).Draw(rt, "stop_twice") == 0
+	s.SyncFail = rapid.IntRange(0, 4).Draw(rt, "sync_fail") == 0
+	s.Rejected = rapid.IntRange(0, 4).Draw(rt, "rejected") == 0
 	switch s.Kind {
 	case "AsyncLogger":
 		s.Refs = []RefSpec{{Ref: "rec0"}}
@@ -194,6 +196,16 @@ func (c c05) Run(x *Exec, scn any) {
 			o.violate("refresh-panic", "C05/refresh-panic/"+s.Kind+"/"+panicSite(st), "Refresh panicked for a %s logger: %v", s.Kind, pv)
 			return
 		}
+		if s.Rejected && startErr == nil {
+			// a second Refresh while this configuration is live is rejected - and changes nothing
+			// about what Destroy owes the accepted events
+			var err2 error
+			x.do("second-refresh", func() { call(func() { err2 = log.Refresh(cfg) }) })
+			if err2 == nil {
+				o.violate("second-refresh-accepted", "C05/second-refresh-accepted", "a second Refresh without Destroy was accepted")
+				return
+			}
+		}
 		submit = func(task, seq int, op AOp) *Sub {
 			sb := &Sub{ID: fmt.Sprintf("t%ds%d", task, seq), Task: task, Seq: seq, Level: op.Lvl, Code: levelCodes[op.Lvl]}
 			sb.Invoke, _ = stepTask()
@@ -233,6 +245,9 @@ func (c c05) Run(x *Exec, scn any) {
 		// at least two more rotations of every file appender before Stop: a descriptor that is
 		// only released "one rotation later" must really be released then
 		for round := 0; round < 3; round++ {
+			if round == 0 && s.SyncFail {
+				x.FS.AddFault(&simos.FaultRule{Op: "sync", Prefix: "/logs", Err: syscall.EINVAL, Count: -1})
+			}
 			if round == 1 && s.Knobs.MapSeed%2 == 1 {
 				// one file creation fails at this boundary (descriptor table full): the logger
 				// must keep its current file, and Stop must still close everything it ever opened
@@ -264,6 +279,11 @@ func (c c05) Run(x *Exec, scn any) {
 	}
 	if n := x.FS.OpenCount(); s.Kind == "RollingFile" && n > 2*(1+b2i(s.Separate)) {
 		o.violate("too-many-descriptors", "C05/rolling-too-many-descriptors", "%d descriptors open while no write is in progress", n)
+	}
+	if s.SyncFail {
+		// flushing to stable storage fails from now on (a pipe, a full or failing disk): Stop
+		// still has to release every descriptor, and what was written stays written
+		x.FS.AddFault(&simos.FaultRule{Op: "sync", Prefix: "/logs", Err: syscall.EINVAL, Count: -1})
 	}
 	var present map[string]bool
 	var openAtStop int
